@@ -250,6 +250,60 @@ func (x *ctx) cosets(rng *rand.Rand) {
 				r.Violate("ristretto/ConditionalSelect", det(), x.c)
 			}
 		}
+		// representatives produced by each scalar-multiplication algorithm: they must encode to the RFC bytes and
+		// behave as operands (their extended coordinates, incl. T, are consumed by encoding and addition)
+		kk := new(big.Int).Mod(new(big.Int).Mul(k, k2), ref.L)
+		one := scalar.One()
+		zero := scalar.New()
+		rbase := reps[0]
+		algos := map[string]func() *curve.RistrettoPoint{
+			"Mul":                                     func() *curve.RistrettoPoint { return curve.NewRistrettoPoint().Mul(rbase, sc) },
+			"DoubleScalarMulBasepointVartime":         func() *curve.RistrettoPoint { return curve.NewRistrettoPoint().DoubleScalarMulBasepointVartime(sc, rbase, zero) },
+			"ExpandedDoubleScalarMulBasepointVartime": func() *curve.RistrettoPoint { return curve.NewRistrettoPoint().ExpandedDoubleScalarMulBasepointVartime(sc, curve.NewExpandedRistrettoPoint(rbase), zero) },
+			"MultiscalarMul":                          func() *curve.RistrettoPoint { return curve.NewRistrettoPoint().MultiscalarMul([]*scalar.Scalar{sc}, []*curve.RistrettoPoint{rbase}) },
+			"MultiscalarMulVartime":                   func() *curve.RistrettoPoint { return curve.NewRistrettoPoint().MultiscalarMulVartime([]*scalar.Scalar{sc, zero}, []*curve.RistrettoPoint{rbase, other}) },
+			"ExpandedMultiscalarMulVartime":           func() *curve.RistrettoPoint { return curve.NewRistrettoPoint().ExpandedMultiscalarMulVartime([]*scalar.Scalar{sc}, []*curve.ExpandedRistrettoPoint{curve.NewExpandedRistrettoPoint(rbase)}, nil, nil) },
+			"MulBasepoint(custom table)":              func() *curve.RistrettoPoint { return curve.NewRistrettoPoint().MulBasepoint(curve.NewRistrettoBasepointTable(rbase), sc) },
+			"in-place MultiscalarMul(acc among the points)": func() *curve.RistrettoPoint {
+				acc := curve.NewRistrettoPoint().Set(rbase)
+				return acc.MultiscalarMul([]*scalar.Scalar{sc, zero}, []*curve.RistrettoPoint{acc, other})
+			},
+			"in-place MultiscalarMulVartime(acc among the points)": func() *curve.RistrettoPoint {
+				acc := curve.NewRistrettoPoint().Set(rbase)
+				return acc.MultiscalarMulVartime([]*scalar.Scalar{zero, sc}, []*curve.RistrettoPoint{other, acc})
+			},
+			"in-place Mul/Add/Sub/Neg": func() *curve.RistrettoPoint {
+				acc := curve.NewRistrettoPoint().Set(rbase)
+				acc.Mul(acc, sc)
+				acc.Add(acc, acc)
+				acc.Sub(acc, curve.NewRistrettoPoint().Mul(rbase, sc))
+				acc.Neg(acc)
+				return acc.Neg(acc)
+			},
+		}
+		wantKK := ref.RistrettoEncode(ref.B.Mul(kk))
+		wantSum := ref.RistrettoEncode(ref.B.Mul(new(big.Int).Add(kk, k2)))
+		for name, f := range algos {
+			var res *curve.RistrettoPoint
+			pan, msg := mon.Try(func() { res = f() })
+			r.Eval(nil)
+			r.Hist("algorithm-output/" + name)
+			if pan {
+				r.Violate("ristretto/"+name+"/panic", msg+"; "+det(), x.c)
+				continue
+			}
+			if got := renc(res); !bytes.Equal(got, wantKK) {
+				r.Violate("ristretto/"+name+"/encoding", fmt.Sprintf("result of %s encodes to %x, RFC encoding of the element %x; %s", name, got, wantKK, det()), x.c)
+				continue
+			}
+			if got := renc(curve.NewRistrettoPoint().Add(res, other)); !bytes.Equal(got, wantSum) {
+				r.Violate("ristretto/"+name+"/as-operand", fmt.Sprintf("result of %s used as an operand of Add gives %x, want %x; %s", name, got, wantSum, det()), x.c)
+			}
+			if res.Equal(curve.NewRistrettoPoint().Mul(rbase, sc)) != 1 {
+				r.Violate("ristretto/"+name+"/Equal", det(), x.c)
+			}
+		}
+		_ = one
 		r.EvalN(6)
 		prev, prevK = reps[0], k
 	}
